@@ -193,25 +193,6 @@ def c03_delta_width(case, out):
 
 
 @predicate
-def c03_v2_delta_nulls(case, out):
-    """v2 DELTA_BINARY_PACKED page with nulls is refused: AssertionError 'null delta-int not implemented'."""
-    return "AssertionError@core.py:read_data_page_v2" in out["sig"] and "null delta-int not implemented" in out.get("detail", "")
-
-
-@predicate
-def c03_delta_empty_page(case, out):
-    """A DELTA_BINARY_PACKED page without any non-null value: delta_binary_unpack reads a header that is not there."""
-    if not case.get("allow_known"):
-        return False
-    for rg in case["plan"]["row_groups"]:
-        for name, cp in rg.get("chunks", {}).items():
-            if any(p.get("encoding") == "DELTA_BINARY_PACKED" for p in cp.get("pages", [])) and \
-                    all(v is None for v in rg["data"][name]):
-                return out["sig"].startswith(("crash", "read_raised", "value", "missing", "hang"))
-    return False
-
-
-@predicate
 def c15_v2_nested(case, out):
     has_v2 = any(p.get("version", 1) == 2 for rg in case["plan"]["row_groups"] for cp in rg.get("chunks", {}).values()
                  for p in cp.get("pages", []))
@@ -393,13 +374,6 @@ def c12_bitpacked_truncated_group(case, out):
         return False
     return any(p.get("truncate_last_group") for rg in inner.get("plan", {}).get("row_groups", [])
                for cp in rg.get("chunks", {}).values() for p in cp.get("pages", []))
-
-
-@predicate
-def c12_delta_empty_page(case, out):
-    src, inner = _c12_inner(case)
-    return src == "C03" and any(n == 0 for n in _c12_delta_pages(inner)) and \
-        any(f in out["sig"] for f in ("delta", "read_unsigned_var_int", "NumpyIO", "crash"))
 
 
 @predicate
